@@ -671,10 +671,10 @@ enum cc_stat cc_treetable_remove_first(CC_TreeTable *table, void **out)
  */
 enum cc_stat cc_treetable_remove_last(CC_TreeTable *table, void **out)
 {
-    RBNode *node = tree_max(table, table->root);
-
-    if (!node)
+    if (table->size == 0)
         return CC_ERR_KEY_NOT_FOUND;
+
+    RBNode *node = tree_max(table, table->root);
 
     if (out)
         *out = node->value;
